@@ -5,7 +5,7 @@ import zcklib as Z
 from props import hdrgen, filegen as FG
 
 PROP = 'C02'
-MODULES = ['ZckModel.Props.C02', 'ZckModel.Props.C02Stream', 'ZckModel.Props.C02Decode', 'ZckModel.Props.C02Full']
+MODULES = ['ZckModel.Props.C02', 'ZckModel.Props.C02Stream', 'ZckModel.Props.C02Decode', 'ZckModel.Props.C02Full', 'ZckModel.Props.C02Hash']
 ASSUMPTIONS = [
     "the codec is external: libzstd's verdict on every stored chunk (computed by calling libzstd directly) is given to the Lean "
     "reference decoder as a table; the theorems hold for ANY codec function",
@@ -65,6 +65,12 @@ def gen_cases(tier, seed, ctx):
                 y.chunks[k]['digest'] = Z.H(y.chunk_hash_type, bytes(st))        # corrupted body with a MATCHING chunk checksum
                 add('rechecksummed-corruption', y.finish().build(), rnd.choice(scheds))
                 add('rechecksummed-corruption-old-datasum', y.build(), rnd.choice(scheds))
+        # the first index entry stores nothing but declares a length (re-sealed): there is no dictionary to load, nothing may be swallowed as one
+        if z.chunks[0]['comp_len'] == 0:
+            for N in (1, 5, 200):
+                y = copy.deepcopy(z); y.chunks[0]['len_enc'] = Z.ci(N)
+                for sch in (scheds[0], scheds[-1], rnd.choice(scheds)):
+                    add('empty-dict-declared-len', y.build(), sch)
         # zstd frames that do not record their content size (legal; never written by zck) and chunks made of two frames:
         # valid as they are, invalid with any other declared length
         if z.comp_type == 2:
